@@ -52,6 +52,9 @@ def _load(prop):
     return importlib.import_module(modname), kw
 
 
+_SEEDS_RUN_IN_THIS_PROCESS = []
+
+
 def worker_chunk(args):
     prop, tier, seeds = args
     mod, kw = _load(prop)
@@ -68,6 +71,11 @@ def worker_chunk(args):
             r["harness_error"] = traceback.format_exc()
         finally:
             faulthandler.cancel_dump_traceback_later()
+        if r.get("violation"):
+            # one seed is one execution - unless the library keeps process-global state; then the
+            # seeds this worker ran before are part of the schedule and are recorded with the violation
+            r["violation"]["prior_seeds_in_worker"] = list(_SEEDS_RUN_IN_THIS_PROCESS)
+        _SEEDS_RUN_IN_THIS_PROCESS.append(int(seed))
         out.append(r)
     return out
 
@@ -82,13 +90,32 @@ def worker_minimise(args):
     return minimise.minimise(mod, record, budget)
 
 
-def worker_replay(args):
-    prop, record = args
+def replay_record(prop, record, with_history=None):
+    """Replay in this process.  If the record says the violation needs the process history (library
+    global state), first re-execute the seeds that the failing worker had run before it."""
     mod, kw = _load(prop)
-    v = mod.replay(record)
+    if with_history if with_history is not None else record.get("needs_process_history"):
+        for sd in record.get("prior_seeds_in_worker", []):
+            try:
+                mod.run(sd, record.get("tier", "quick"), **kw)
+            except Exception:
+                pass
+    return mod.replay(record)
+
+
+def worker_replay(args):
+    """Always runs in a FRESH interpreter process (own single-use pool)."""
+    prop, record = args[:2]
+    v = replay_record(prop, record, with_history=args[2] if len(args) > 2 else None)
     if v is None:
         return None
     return {"check": v.check, "msg": v.msg, "detail": util.to_jsonable(v.detail)}
+
+
+def fresh_replay(prop, record, with_history=None):
+    ctx = mp.get_context("spawn")
+    with cf.ProcessPoolExecutor(max_workers=1, mp_context=ctx, initializer=_worker_init) as one:
+        return one.submit(worker_replay, (prop, record, with_history)).result()
 
 
 def worker_known(args):
@@ -156,11 +183,27 @@ def run_check(prop, tier="quick", base_seed=0, runs=None, workers=None, wall=Non
             os.makedirs(os.path.join(rt.VERIF, "replays"), exist_ok=True)
             for v, m in zip(todo, mins):
                 rec = m or v
+                if m is not None and m is not v:
+                    # a minimised record must fail the same way in a FRESH process; if the violation
+                    # depends on library process-global state the minimiser's own process history may
+                    # have produced it - then fall back to the original record plus the worker's history
+                    def _rep(r_, hist):
+                        a_ = fresh_replay(prop, util.from_jsonable(util.to_jsonable(r_)) if False else json.loads(util.dumps(r_)), with_history=hist)
+                        return a_ is not None and a_["check"] == r_["violation"]["check"]
+                    if not _rep(m, None) and not (m.get("prior_seeds_in_worker") and _rep(m, True)):
+                        rec = v
                 path = os.path.join(rt.VERIF, "replays", f"{prop}-{rec['seed']}-{rec['violation']['check'].replace('/', '_')}.json")
                 with open(path, "w") as fh:
                     fh.write(util.dumps(rec, indent=1))
-                again = list(ex.map(worker_replay, [(prop, json.load(open(path)))]))[0]
+                again = fresh_replay(prop, json.load(open(path)))
                 ok = again is not None and again["check"] == rec["violation"]["check"]
+                if not ok and rec.get("prior_seeds_in_worker"):
+                    again = fresh_replay(prop, json.load(open(path)), with_history=True)
+                    if again is not None and again["check"] == rec["violation"]["check"]:
+                        rec["needs_process_history"] = True
+                        with open(path, "w") as fh:
+                            fh.write(util.dumps(rec, indent=1))
+                        ok = "only-after-prior-seeds (library process-global state)"
                 print(f"VIOLATION property={prop} replay={path}", file=out, flush=True)
                 print(f"  check={rec['violation']['check']} seed={rec['seed']} steps={len(rec.get('records', []))} "
                       f"faults={sum(len(x) for x in rec.get('faults', {}).values())} replay_reproduces={ok}\n  {rec['violation']['msg'][:300]}", file=out, flush=True)
